@@ -116,16 +116,21 @@ func c19R1(r *Report) {
 		r.Fail("R1", "checkLocal/host", cl.Pos(), "checkLocal no longer derives the host with net.SplitHostPort(r.Host)")
 		return
 	}
-	accept := edgeReq{Name: "host == \"localhost\" or net.ParseIP(host) != nil", Match: func(cond ssa.Value, pol bool) bool {
+	// the acceptance test may sit in checkLocal or in a boolean helper it hands the host to (localHostname(host))
+	accept := edgeReq{Name: "host == \"localhost\" or net.ParseIP(host) != nil", ViaHelper: true, Subj: []ssa.Value{host}, MatchS: func(sj []ssa.Value, cond ssa.Value, pol bool) bool {
 		bo, ok := cond.(*ssa.BinOp)
-		if !ok {
+		if !ok || sj[0] == nil {
 			return false
 		}
-		if s, oks := constString(bo.Y); oks && s == "localhost" && bo.X == host {
+		h := sj[0]
+		if s, oks := constString(bo.Y); oks && s == "localhost" && bo.X == h {
+			return (bo.Op == token.EQL) == pol
+		}
+		if s, oks := constString(bo.X); oks && s == "localhost" && bo.Y == h {
 			return (bo.Op == token.EQL) == pol
 		}
 		if isNilConst(bo.Y) {
-			if c, okc := bo.X.(*ssa.Call); okc && isStdCall(c, "net", "", "ParseIP") && c.Call.Args[0] == host {
+			if c, okc := bo.X.(*ssa.Call); okc && isStdCall(c, "net", "", "ParseIP") && c.Call.Args[0] == h {
 				return (bo.Op == token.NEQ) == pol
 			}
 		}
